@@ -121,6 +121,7 @@ static std::string hashed(M* m, const Toks& t, const K&, const V&)
 	if (op == "rem" && n == 4) { parse(t[3], k); a.remove(k); return "ok " + str(a.length()); }
 	if (op == "clear" && n == 3) { a.clear(); return "ok " + str(a.length()); }
 	if (op == "clone" && n == 4) { m[slot(t[3])] = a.clone(); return "ok " + str(m[slot(t[3])].length()); }
+	if (op == "dup" && n == 3) { a.dup(); return "ok " + str(a.length()); }
 	if (op == "eq" && n == 4) { M& b = m[slot(t[3])]; bool e = a == b, ne = a != b; if (e == ne) return "err eq-ne-inconsistent"; return e ? "1" : "0"; }
 	if (op == "len" && n == 3) { return str(a.length()); }
 	if (op == "raw" && n == 3) {
@@ -171,6 +172,7 @@ static std::string sets(S* m, const Toks& t, const K& kk)
 	if (op == "has" && n == 4) { parse(t[3], k); return a.contains(k) ? "1" : "0"; }
 	if (op == "clear" && n == 3) { a.clear(); return "ok " + str(a.length()); }
 	if (op == "clone" && n == 4) { (HashMap<K, int>&)m[slot(t[3])] = a.clone(); return "ok " + str(m[slot(t[3])].length()); }
+	if (op == "dup" && n == 3) { a.dup(); return "ok " + str(a.length()); }
 	if (op == "from" && n >= 3) {
 		Array<K> arr;
 		for (size_t i = 3; i < n; i++) { parse(t[i], k); arr << k; }
